@@ -150,7 +150,48 @@ def scripted_cases():
     check("int-nonconstant", lambda: (T(2, 3),), lambda a: mg.add(a.astype(int), 1, constant=False))
     check("where-shape", lambda: (T(2, 3), T(4)), lambda a, b: mg.where(np.ones((2, 3), bool), a, b))
     check("stack-shape", lambda: (T(2, 3), T(4)), lambda a, b: mg.stack([a, b]))
+    # failures on natively read-only memory (NumPy refuses the write): the failing statement comes *after* ops that
+    # consumed the target's whole view family; the earlier graph must still back-propagate exactly as without it
+    def ro_build():
+        arr = np.arange(1.0, 7.0)
+        arr.flags.writeable = False
+        x = mg.Tensor(arr, copy=False)
+        v = x[1:5]
+        w = v[::2]
+        return arr, x, v, w, x * x, v * v * 3.0, w * w * 5.0
+
+    def ro_finish(st):
+        arr, x, v, w, sx, sv, sw = st
+        (sx.sum() + sv.sum() + sw.sum()).backward()
+        return [None if t.grad is None else np.array(t.grad) for t in (x, v, w)], [np.array(t.data) for t in (x, v, w)], \
+               (v.base is x, w.base is x, x.base is None, x.constant, v.constant, w.constant)
+
+    ref = ro_finish(ro_build())
+    for name, bad in [("readonly-view-setitem", lambda arr, x, v, w, *_: v.__setitem__(Ellipsis, 0.0)),
+                      ("readonly-base-imul", lambda arr, x, v, w, *_: x.__imul__(2.0)),
+                      ("readonly-viewofview-iadd", lambda arr, x, v, w, *_: w.__iadd__(1.0)),
+                      ("readonly-out", lambda arr, x, v, w, *_: np.add(v, 1.0, out=v)),
+                      ("readonly-base-setitem-index", lambda arr, x, v, w, *_: x.__setitem__(np.array([0, 0, 3]), 2.0))]:
+        gc.collect()
+        st = ro_build()
+        try:
+            bad(*st)
+            out.append((name, "did-not-raise", f"{name}: a write to natively read-only memory was expected to raise"))
+            continue
+        except Exception:
+            pass
+        got = ro_finish(st)
+        same = (all((a is None) == (b is None) and (a is None or np.array_equal(a, b)) for a, b in zip(got[0], ref[0]))
+                and all(np.array_equal(a, b) for a, b in zip(got[1], ref[1])) and got[2] == ref[2])
+        if not same:
+            out.append((name, "graph-corrupted", f"{name}: after the failed write the earlier graph back-propagates differently: "
+                        f"grads {[None if g is None else g.tolist() for g in got[0]]} vs {[None if g is None else g.tolist() for g in ref[0]]}"))
+        if st[0].flags.writeable:
+            out.append((name, "lock-left", f"{name}: the read-only array became writeable"))
     return out
+
+
+N_SCRIPTED = 22
 
 
 def run(ctx: Ctx) -> Outcome:
@@ -158,8 +199,8 @@ def run(ctx: Ctx) -> Outcome:
     out, results = engcheck.run_programs(ctx, n, dict(GEN, n_stmts=ctx.n(10, 18)), "oracle", nontrivial)
     out.rule = ("random programs with failing statements (non-view op with incompatible shapes, view op with bad index / "
                 "bad reshape, in-place update with bad shape or index on a base or on a view, bad out=) inserted at random "
-                "positions (22% of statements); non-trivial = >=1 failing statement actually raised; plus 17 scripted failure "
-                "kinds on matmul/einsum/concatenate/conv/out=dtype ...")
+                "positions (22% of statements); non-trivial = >=1 failing statement actually raised; plus 22 scripted failure "
+                "kinds on matmul/einsum/concatenate/conv/out=dtype, and writes to natively read-only memory after the view family was consumed")
     nt = 0
     for r in results:
         if any(x != "ok" and x != "GUARD" and not x.startswith("v") for x in r["real"][1::2]):
@@ -168,7 +209,7 @@ def run(ctx: Ctx) -> Outcome:
     engcheck.report(out, results, "C13", oracle)
     for name, cls, msg in scripted_cases():
         out.violations.append(Violation(f"C13|{cls}|{name}", msg, {"kind": "scripted", "name": name}))
-    out.evaluations += 17
+    out.evaluations += N_SCRIPTED
     return out
 
 
